@@ -15,6 +15,44 @@ theorem kept_isSome {c c' : Ctx} (hk : HandlesKept c c') {h : Handle} (hs : (c.n
   obtain ⟨m', hm', _⟩ := hk h m hm
   rw [hm']; rfl
 
+theorem lit_getAtIndex (c : Ctx) (d : NanBox.Decoded) (i : Nat) :
+    c.getAtIndex (.lit d) i = (c, Spec.litAnswer d true ErrorCode_NotIndexable ErrorCode_ReadError) := by
+  unfold Ctx.getAtIndex Ctx.dispatch Spec.litAnswer
+  cases d with
+  | ok r => cases r <;> simp
+  | decodeError => rfl
+  | panic => rfl
+
+theorem lit_getKeyAtIndex (c : Ctx) (d : NanBox.Decoded) (i : Nat) :
+    c.getKeyAtIndex (.lit d) i = (c, Spec.litAnswer d false ErrorCode_NotAnObject ErrorCode_ReadError) := by
+  unfold Ctx.getKeyAtIndex Ctx.dispatch Spec.litAnswer
+  cases d with
+  | ok r => cases r <;> simp
+  | decodeError => rfl
+  | panic => rfl
+
+theorem lit_getObjProp (c : Ctx) (d : NanBox.Decoded) (q : Bytes) :
+    c.getObjProp (.lit d) q = (c, Spec.litAnswer d false ErrorCode_NotAnObject ErrorCode_DecodeError) := by
+  unfold Ctx.getObjProp Ctx.dispatch Spec.litAnswer
+  cases d with
+  | ok r => cases r <;> simp
+  | decodeError => rfl
+  | panic => rfl
+
+theorem litAnswer_err (d : NanBox.Decoded) (a : Bool) (w u : Nat) : ∃ code, Spec.litAnswer d a w u = .err code := by
+  unfold Spec.litAnswer
+  cases d with
+  | ok r => cases r <;> simp <;> (split <;> simp)
+  | decodeError => exact ⟨_, rfl⟩
+  | panic => exact ⟨_, rfl⟩
+
+theorem litAnswer_handles (d : NanBox.Decoded) (a : Bool) (w u : Nat) (c : Ctx) :
+    ∀ x ∈ (RAns.val (Spec.litAnswer d a w u)).handles, (c.nodeAt? x).isSome := by
+  intro x hx
+  obtain ⟨code, hc⟩ := litAnswer_err d a w u
+  rw [hc] at hx
+  simp [RAns.handles] at hx
+
 /-- one call: the answer is the specified one, and everything needed for the next call holds -/
 theorem rstep_ok {c : Ctx} (hc : CInv c) (op : ROp)
     (hv : match op.handle? with | some h => (c.nodeAt? h).isSome | none => True) :
@@ -26,22 +64,50 @@ theorem rstep_ok {c : Ctx} (hc : CInv c) (op : ROp)
   | root =>
     obtain ⟨h1, h2, h3, _, h5, h6, h7⟩ := inputGet_ok hc
     exact ⟨by simp only [Ctx.rstep, Spec.answer, h1], h2, h3, h5, h6, handleOK_handles h7⟩
-  | atIndex h i =>
-    obtain ⟨m, hm⟩ := Option.isSome_iff_exists.mp hv
-    obtain ⟨h1, h2⟩ := getAtIndex_node_ok hc hm i
-    exact ⟨by simp only [Ctx.rstep, Spec.answer, h1], h2.inv, h2.input, h2.nroots, h2.kept, handleOK_handles h2.handle⟩
-  | keyAt h i =>
-    obtain ⟨m, hm⟩ := Option.isSome_iff_exists.mp hv
-    obtain ⟨h1, h2⟩ := getKeyAtIndex_node_ok hc hm i
-    exact ⟨by simp only [Ctx.rstep, Spec.answer, h1], h2.inv, h2.input, h2.nroots, h2.kept, handleOK_handles h2.handle⟩
-  | prop h q =>
-    obtain ⟨m, hm⟩ := Option.isSome_iff_exists.mp hv
-    obtain ⟨h1, h2⟩ := getObjProp_node_ok hc hm q
-    exact ⟨by simp only [Ctx.rstep, Spec.answer, h1], h2.inv, h2.input, h2.nroots, h2.kept, handleOK_handles h2.handle⟩
-  | len h =>
-    obtain ⟨m, hm⟩ := Option.isSome_iff_exists.mp hv
-    obtain ⟨h1, _⟩ := getValLen_node_ok hc hm
-    exact ⟨by simp only [Ctx.rstep, Spec.answer, h1], hc, rfl, rfl, HandlesKept.refl c, by simp [Ctx.rstep, RAns.handles]⟩
+  | atIndex s i =>
+    cases s with
+    | node h =>
+      obtain ⟨m, hm⟩ := Option.isSome_iff_exists.mp hv
+      obtain ⟨h1, h2⟩ := getAtIndex_node_ok hc hm i
+      exact ⟨by simp only [Ctx.rstep, Spec.answer, h1], h2.inv, h2.input, h2.nroots, h2.kept, handleOK_handles h2.handle⟩
+    | lit d =>
+      have hstep : c.getAtIndex (.lit d) i = (c, Spec.litAnswer d true ErrorCode_NotIndexable ErrorCode_ReadError) := lit_getAtIndex c d i
+      refine ⟨by simp only [Ctx.rstep, Spec.answer, hstep], by simp only [Ctx.rstep, hstep]; exact hc,
+        by simp only [Ctx.rstep, hstep], by simp only [Ctx.rstep, hstep, ROp.nextRoots],
+        by simp only [Ctx.rstep, hstep]; exact HandlesKept.refl c,
+        by simp only [Ctx.rstep, hstep]; exact litAnswer_handles _ _ _ _ c⟩
+  | keyAt s i =>
+    cases s with
+    | node h =>
+      obtain ⟨m, hm⟩ := Option.isSome_iff_exists.mp hv
+      obtain ⟨h1, h2⟩ := getKeyAtIndex_node_ok hc hm i
+      exact ⟨by simp only [Ctx.rstep, Spec.answer, h1], h2.inv, h2.input, h2.nroots, h2.kept, handleOK_handles h2.handle⟩
+    | lit d =>
+      have hstep : c.getKeyAtIndex (.lit d) i = (c, Spec.litAnswer d false ErrorCode_NotAnObject ErrorCode_ReadError) := lit_getKeyAtIndex c d i
+      refine ⟨by simp only [Ctx.rstep, Spec.answer, hstep], by simp only [Ctx.rstep, hstep]; exact hc,
+        by simp only [Ctx.rstep, hstep], by simp only [Ctx.rstep, hstep, ROp.nextRoots],
+        by simp only [Ctx.rstep, hstep]; exact HandlesKept.refl c,
+        by simp only [Ctx.rstep, hstep]; exact litAnswer_handles _ _ _ _ c⟩
+  | prop s q =>
+    cases s with
+    | node h =>
+      obtain ⟨m, hm⟩ := Option.isSome_iff_exists.mp hv
+      obtain ⟨h1, h2⟩ := getObjProp_node_ok hc hm q
+      exact ⟨by simp only [Ctx.rstep, Spec.answer, h1], h2.inv, h2.input, h2.nroots, h2.kept, handleOK_handles h2.handle⟩
+    | lit d =>
+      have hstep : c.getObjProp (.lit d) q = (c, Spec.litAnswer d false ErrorCode_NotAnObject ErrorCode_DecodeError) := lit_getObjProp c d q
+      refine ⟨by simp only [Ctx.rstep, Spec.answer, hstep], by simp only [Ctx.rstep, hstep]; exact hc,
+        by simp only [Ctx.rstep, hstep], by simp only [Ctx.rstep, hstep, ROp.nextRoots],
+        by simp only [Ctx.rstep, hstep]; exact HandlesKept.refl c,
+        by simp only [Ctx.rstep, hstep]; exact litAnswer_handles _ _ _ _ c⟩
+  | len s =>
+    cases s with
+    | node h =>
+      obtain ⟨m, hm⟩ := Option.isSome_iff_exists.mp hv
+      obtain ⟨h1, _⟩ := getValLen_node_ok hc hm
+      exact ⟨by simp only [Ctx.rstep, Spec.answer, h1], hc, rfl, rfl, HandlesKept.refl c, by simp [Ctx.rstep, RAns.handles]⟩
+    | lit d =>
+      exact ⟨by simp only [Ctx.rstep, Spec.answer, Ctx.getValLen], hc, rfl, rfl, HandlesKept.refl c, by simp [Ctx.rstep, RAns.handles]⟩
   | strOff h =>
     obtain ⟨m, hm⟩ := Option.isSome_iff_exists.mp hv
     obtain ⟨_, h1⟩ := getValLen_node_ok hc hm
